@@ -28,6 +28,7 @@ const (
 	kBreaker           // circuit breaker: state and deadline kept
 	kHotQPS            // hotspot QPS: token counters kept
 	kHotConc           // hotspot concurrency: per-value counters kept
+	kCustomCb          // circuit breaker of a strategy registered by the user (SetCircuitBreakerGenerator): its object is kept
 	nKinds
 )
 
@@ -50,9 +51,9 @@ func (P) Engine() string { return "E1" }
 
 func (P) Describe() harness.Description {
 	return harness.Description{
-		MustHit: []string{"rule_modified_neutrally_keeps_counters", "unchanged_rule_listed_twice", "reload_compound", "reload_whole_set", "reload_per_resource", "reload_reorders", "reload_modifies_other_with_same_stat_params", "trace_has_block_and_admit", "modified_rule_keeps_statistics", "modified_breaker_rule_compared_over_whole_history"},
+		MustHit: []string{"rule_modified_neutrally_keeps_counters", "unchanged_rule_listed_twice", "reload_compound", "reload_whole_set", "reload_per_resource", "reload_reorders", "reload_modifies_other_with_same_stat_params", "trace_has_block_and_admit", "modified_rule_keeps_statistics", "modified_breaker_rule_compared_over_whole_history", "breaker_of_a_user_registered_strategy"},
 		Level:   "exploration",
-		Rule: "case = (kind of the unchanged rule R: flow throttling / warm-up / reject with a private window, circuit breaker, hotspot QPS, hotspot concurrency; 0-2 never-blocking rules of the same module on the same resource; 20-80 traffic ops (requests with arguments, holds, completions with errors, ticks) with 1-4 reloads inserted, each a compound of 1-3 edits: each keeps R field-for-field identical (fresh object) and adds / removes / modifies (also with unchanged statistic parameters) / reorders the others, or duplicates R where that is behaviour-neutral; whole-set and per-resource paths). " +
+		Rule: "case = (kind of the unchanged rule R: flow throttling / warm-up / reject with a private window, circuit breaker (built-in strategy, or a strategy registered by the user whose breaker keeps all state in its object), hotspot QPS, hotspot concurrency; 0-2 never-blocking rules of the same module on the same resource; 20-80 traffic ops (requests with arguments, holds, completions with errors, ticks) with 1-4 reloads inserted, each a compound of 1-3 edits: each keeps R field-for-field identical (fresh object) and adds / removes / modifies (also with unchanged statistic parameters) / reorders the others, or duplicates R where that is behaviour-neutral; whole-set and per-resource paths). " +
 			"Run A executes the history without the reloads, run B with them, after a full reset of process-global state; the decision traces (admit / block type / requested wait) on R's resource must be identical. A second oracle modifies R itself keeping its statistic parameters (private-window flow rule: threshold change) and requires the decisions to equal a model whose window keeps the pre-reload counts. " +
 			"non-trivial = the trace contains both outcomes after the first reload; distinct = hash(config, ops)",
 		Assumptions: []string{"the other rules never block (huge thresholds) so that the trace is governed by R alone", "duplicates of R are inserted only for rule kinds where an extra fresh copy cannot change a decision (reject-mode flow rules: the copy's private window holds a subset of the original's counts)"},
@@ -153,6 +154,9 @@ func cbR(cfg *Cfg, retry int) *cb.Rule {
 	if retry == 0 {
 		retry = cfg.P2 * 700
 	}
+	if cfg.Kind == kCustomCb {
+		return &cb.Rule{Id: "R", Resource: res, Strategy: latchStrategy, RetryTimeoutMs: uint32(retry), MinRequestAmount: 1, StatIntervalMs: 5000, Threshold: float64(cfg.P1), MaxAllowedRtMs: uint64(cfg.P2)}
+	}
 	return &cb.Rule{Id: "R", Resource: res, Strategy: cb.ErrorCount, RetryTimeoutMs: uint32(retry), MinRequestAmount: 1, StatIntervalMs: 5000, StatSlidingWindowBucketCount: 1, Threshold: float64(cfg.P1), ProbeNum: uint64(cfg.P2 % 2)}
 }
 
@@ -218,7 +222,7 @@ func load(o *harness.Outcome, step int, cfg *Cfg, l *lst, perRes bool) {
 			} else {
 				_, _ = flow.LoadRules(rules)
 			}
-		case cfg.Kind == kBreaker:
+		case cfg.Kind == kBreaker || cfg.Kind == kCustomCb:
 			var rules []*cb.Rule
 			for i, p := range l.others {
 				if i == l.rpos {
@@ -332,6 +336,16 @@ func run(c *harness.Case, cfg *Cfg, o *harness.Outcome, withReloads bool, preRet
 	clk.OnSleep = func(d time.Duration) { lastSleep += d }
 	l := &lst{others: append([]int{}, cfg.Others...), rpos: cfg.RPos, dup: cfg.RDup, rRetry: preRetry}
 	curStep := 0
+	if cfg.Kind == kCustomCb {
+		_ = cb.SetCircuitBreakerGenerator(latchStrategy, func(r *cb.Rule, reuseStat interface{}) (cb.CircuitBreaker, error) {
+			return &latch{rule: r}, nil
+		})
+		defer func() {
+			_, _ = cb.LoadRules(nil)
+			_ = cb.RemoveCircuitBreakerGenerator(latchStrategy)
+		}()
+		o.Probe("breaker_of_a_user_registered_strategy")
+	}
 	if cfg.Kind == kBreaker {
 		cb.ClearStateChangeListeners()
 		cb.RegisterStateChangeListeners(&openRec{func() { opened = append(opened, curStep) }})
@@ -563,6 +577,30 @@ func checkKeptStatistics(c *harness.Case, cfg *Cfg, o *harness.Outcome, b []tr, 
 			}
 			ti++
 		}
+	}
+}
+
+// latch is a circuit breaker of a strategy the library does not know: it opens for good once the errors
+// it has seen reach the threshold. All of its state lives in the object.
+const latchStrategy cb.Strategy = 100
+
+type latch struct {
+	rule *cb.Rule
+	errs float64
+}
+
+func (l *latch) BoundRule() *cb.Rule                 { return l.rule }
+func (l *latch) BoundStat() interface{}              { return nil }
+func (l *latch) TryPass(ctx *base.EntryContext) bool { return l.errs < l.rule.Threshold }
+func (l *latch) CurrentState() cb.State {
+	if l.errs < l.rule.Threshold {
+		return cb.Closed
+	}
+	return cb.Open
+}
+func (l *latch) OnRequestComplete(rt uint64, err error) {
+	if err != nil {
+		l.errs++
 	}
 }
 
